@@ -185,6 +185,8 @@ def expected (spec):
         cl = list (range (len (pl)))
         for i in range (len (pl)):
             for j in range (i):
+                if 0.97 * tol <= np.linalg.norm (pl [i] - pl [j]) <= 1.03 * tol:
+                    spec ['_edge'] = True       # on the edge of the tolerance (which the program takes from the segment lengths it computed)
                 if np.linalg.norm (pl [i] - pl [j]) <= tol and cl [i] != cl [j]:
                     a, b = cl [i], cl [j]
                     cl = [b if x == a else x for x in cl]
@@ -223,6 +225,8 @@ def check (spec0):
     pts, sizes, n_gnd, n_int = expected (spec)
     if not pts:
         return dict (status = 'discard', reason = 'no pulses expected')
+    if spec.get ('_edge'):
+        return dict (status = 'discard', reason = 'two ends within 3 % of the matching tolerance')
     m    = gen.build (spec)
     tol  = spec ['tol']
     viol = []
